@@ -15,12 +15,21 @@ contract("monkeytype.util:get_name_in_module", props=["C10", "C08"], theories=TH
          note="assumes: importing a stored module either succeeds or raises ModuleNotFoundError; attribute access either succeeds or raises AttributeError; a caller-supplied attr_getter behaves like getattr")
 
 from contracts._texts import _FN_OF, _BAD
+def _not_a_function(m, q):
+    """The raise condition of get_func_in_module(m, q): the name cannot be looked up, is not (a wrapper of) a function, or is bound to a function of another name."""
+    o = "(unwrapped_(lookup_(%s, %s)))" % (m, q)
+    fn = _FN_OF.replace("(o)", o).replace(", o)", ", %s)" % o[1:-1])
+    return "not resolvable(%s, %s) or %s or qualname_or(%s, %s) is not %s" % (m, q, _BAD.replace("(o)", o), fn, q, q)
+
+
 contract("monkeytype.util:get_func_in_module", props=["C10", "C08"], theories=TH,
          params={"module": "str", "qualname": "str"}, result="Obj",
          lets={"o": "unwrapped_(lookup_(module, qualname))"},
          # the function behind the name: the object itself, or the function a method / read-only property / cached_property wraps
-         ensures={"post:function": "result is " + _FN_OF, "post:resolvable": "resolvable(module, qualname)", "post:kind": "not (%s)" % _BAD},
-         raises={"MonkeyTypeError": "not resolvable(module, qualname) or " + _BAD.replace("(o)", "(unwrapped_(lookup_(module, qualname)))")})
+         ensures={"post:function": "result is " + _FN_OF, "post:resolvable": "resolvable(module, qualname)", "post:kind": "not (%s)" % _BAD,
+                  # the name is still bound to a function that calls itself by that name (not, say, to the wrapper of a decorator without functools.wraps)
+                  "post:own-name": "qualname_or(result, qualname) is qualname"},
+         raises={"MonkeyTypeError": _not_a_function("module", "qualname")})
 
 _ENC = "exists_ty(lambda t: {g}wf_st(t) and encodes({d}, t) and reveal_enc({d}, t))"
 contract("monkeytype.encoding:typed_dict_from_dict", props=["C10", "C08"], theories=TH, scc="decode", decreases=["jdepth(d)", "0"],
@@ -86,7 +95,7 @@ contract("monkeytype.encoding:CallTraceRow.to_trace", props=["C10", "C08"], theo
                    "yield-encoded": "%s or %s" % (_ABSENT.format(x="self.yield_type"), _ENC.format(g="", d=_ROWJ.format(f="yield_type")))},
          # C10: whatever the stored row refers to - a removed module / function / class, a name that is no longer a function or a type -
          # decoding either succeeds or raises MonkeyTypeError, never anything else; C08: and it raises only for what cannot be looked up
-         raises={"MonkeyTypeError": "not resolvable(self.module, self.qualname) or %s" % _BAD.replace("(o)", "(unwrapped_(lookup_(self.module, self.qualname)))")
+         raises={"MonkeyTypeError": _not_a_function("self.module", "self.qualname")
                                     + " or not exists_args(lambda A: args_dec_of(%s, A))" % _ROWJ.format(f="arg_types")
                                     + " or (not %s and not %s)" % (_ABSENT.format(x="self.return_type"), _OKT % _ROWJ.format(f="return_type"))
                                     + " or (not %s and not %s)" % (_ABSENT.format(x="self.yield_type"), _OKT % _ROWJ.format(f="yield_type"))},
